@@ -354,6 +354,33 @@ def _canon_rule(chk, prog):
             chk.violation(rule, "struct.c", fn.name, "pair:%s" % c1.text(), n1.loc,
                           "ordering step `%s` -> %s is not mirrored by the next step `%s` -> %s: the insertion order is not antisymmetric"
                           % (c1.text(), v1, c2.text(), v2))
+    # the swap: when the resident pair is displaced, the loop continues with THAT pair - its key, value and everything
+    # cached about the key (hash, probe distance) must be replaced together
+    keyp = fn.params[1]["n"] if len(fn.params) > 1 else "key"
+    cached = set()
+    for x in fn.nodes:
+        if x.k == "vardecl" and x.kids and any(is_ref(y, keyp) for y in x.kids[0].walk()):
+            cached.add(x.name)
+    # locals derived from those (index from hash ...) that the ordering chain actually reads
+    chain_reads = set(y.name for c, _, _ in steps for y in c.walk() if y.k == "ref")
+    cached = set(v for v in cached if v in chain_reads)
+    swaps = [x for x in fn.nodes if x.k == "asg" and x.op == "=" and is_ref(x.kids[0], keyp)]
+    if not swaps or not cached:
+        raise AnalysisBroken("janet_struct_put_ext: swap of the inserted key (%d) / cached key attributes (%s) not found" % (len(swaps), sorted(cached)))
+    for sw in swaps:
+        blk = sw.parent
+        while blk is not None and blk.k != "compound":
+            blk = blk.parent
+        assigned = set(y.kids[0].name for y in (blk.walk() if blk is not None else []) if y.k == "asg" and is_ref(y.kids[0]))
+        for v in sorted(cached):
+            chk.instance(rule)
+            if v in assigned:
+                chk.ok(rule, "%s: swap replaces `%s` together with the key" % (fn.name, v))
+            else:
+                chk.violation(rule, "struct.c", fn.name, "swap:%s" % v, sw.loc,
+                              "the displaced pair becomes the one being inserted (`%s`), but `%s`, which caches a property of the "
+                              "key and decides the ordering of the following slots, keeps the old key's value: runs are no longer "
+                              "sorted and equal structs get different layouts" % (sw.text(), v))
     chk.instance(rule)
     rhs = strip_casts(last.kids[1])
     params = [p for p in fn.params]
